@@ -195,3 +195,15 @@ def loops_preorder(fn: ast.FunctionDef):
 
     walk(fn.body)
     return out
+
+
+def loop_keys(loops):
+    """[(header, n-th occurrence of that header)] for loop statements: `for <iter>` (the target is left out, so renaming a
+    loop variable does not move a spec) / `while <test>`."""
+    out, seen = [], {}
+    for st in loops:
+        h = ("for " + ast.unparse(st.iter)) if isinstance(st, ast.For) else ("while " + ast.unparse(st.test))
+        n = seen.get(h, 0)
+        seen[h] = n + 1
+        out.append((h, n))
+    return out
